@@ -374,6 +374,47 @@ def emissions(prog, fn):
         return out
     roots = [b for b in builders if b not in nested]
     main = roots[0] if roots else builders[0]
+    # the function returns an expression (`format!("<t>{body}</t>")`) that interpolates a builder instead of the
+    # builder itself: the builder's tokens stand where it is interpolated
+    ret_defs = fn.whole_defs(0)
+    if find(0) not in bset and ret_defs and not any(find(m) in bset for m in members.get(find(0), [0])):
+        alloc = {}
+        for b in builders:
+            for kind, payload, bi, si, place in class_defs(b):
+                if kind == "call" and callee_of(payload).rsplit("::", 1)[-1] in ("new", "with_capacity", "from", "default", "to_string", "to_owned"):
+                    alloc[bi] = b
+        ret = R.local(0)
+        r = strip(ret)
+        if r[0] == "ok":
+            r = strip(r[1])
+        if r[0] == "agg" and r[1][0] == "adt" and r[1][2] == "Ok":
+            r = r[2][0]
+        try:
+            rt = sval(prog, fn, r if r is not ret else ret)
+        except CannotInterpret:
+            rt = None
+        used = []
+
+        def subst_builders(toks):
+            out = []
+            for tk in toks:
+                if tk[0] == "val":
+                    x = strip(tk[1])
+                    while x[0] in ("partial", "ref"):
+                        x = strip(x[1])
+                    if x[0] == "call" and len(x) > 3 and x[3] in alloc:
+                        used.append(alloc[x[3]])
+                        out.extend(tokens_of(alloc[x[3]]))
+                        continue
+                if tk[0] == "alt":
+                    out.append(("alt", [subst_builders(a) for a in tk[1]]))
+                    continue
+                out.append(tk)
+            return out
+        if rt is not None:
+            st = subst_builders(rt)
+            if used:
+                return st
     return tokens_of(main)
 
 
